@@ -20,6 +20,7 @@ import re
 import common
 from props import syntaxlib as L
 from props import syntaxref
+from props import stmtgen
 
 MANIFEST = dict(
     category="proof",
@@ -178,7 +179,7 @@ def make_cases(chk, quick):
             t = L.gen_tree(rng, depth)
             name = rng.choice(L.IDENTS)
             tk = [("Let", None), ("Identifier", name), ("Equal", None)] + L.toks(t)
-            expect = "OK (let %s %s)" % (L.esc(name), L.sexpr(t))
+            expect = "OK (let %s _ (decos) %s)" % (L.esc(name), L.sexpr(t))
         else:
             kind, word = rng.choice([("ProcedurePrint", "print"), ("ProcedureAssert", "assert"),
                                      ("ProcedureAssertEq", "assert_eq"), ("ProcedureType", "type")])
@@ -194,6 +195,14 @@ def make_cases(chk, quick):
             continue
         cases.append(dict(src=L.render(tk, rng, tight=rng.choice([0.0, 0.3])), kind="statement", expect=expect, tokens=tk))
         if rng.random() < 0.4:
+            cases.append(dict(src=L.render(L.gen_mutation(rng, tk), rng, tight=0.0), kind="mutated", expect=None))
+    # definition statements: fn / unit / dimension / struct / use / let with annotations and decorators
+    for n in range(500 if quick else 5000):
+        tk, expect = stmtgen.gen_statement(rng)
+        if len(tk) > 150:
+            continue
+        cases.append(dict(src=L.render(tk, rng, tight=rng.choice([0.0, 0.3])), kind="definition", expect=expect, tokens=tk))
+        if rng.random() < 0.5:
             cases.append(dict(src=L.render(L.gen_mutation(rng, tk), rng, tight=0.0), kind="mutated", expect=None))
     for n in range(700 if quick else 6000):
         cases.append(dict(src=L.gen_soup(rng), kind="soup", expect=None))
